@@ -108,6 +108,9 @@ template <typename D1, typename D2, typename R>
 void
 Partially_Reduced_Product<D1, D2, R>
 ::add_recycled_constraints(Constraint_System& cs) {
+  // Note: done first, since a component may be modified
+  // even when the other one throws.
+  clear_reduced_flag();
   if (d1.can_recycle_constraint_systems()) {
     d2.refine_with_constraints(cs);
     d1.add_recycled_constraints(cs);
@@ -122,13 +125,15 @@ Partially_Reduced_Product<D1, D2, R>
       d2.add_constraints(cs);
     }
   }
-  clear_reduced_flag();
 }
 
 template <typename D1, typename D2, typename R>
 void
 Partially_Reduced_Product<D1, D2, R>
 ::add_recycled_congruences(Congruence_System& cgs) {
+  // Note: done first, since a component may be modified
+  // even when the other one throws.
+  clear_reduced_flag();
   if (d1.can_recycle_congruence_systems()) {
     d2.refine_with_congruences(cgs);
     d1.add_recycled_congruences(cgs);
@@ -143,7 +148,6 @@ Partially_Reduced_Product<D1, D2, R>
       d2.add_congruences(cgs);
     }
   }
-  clear_reduced_flag();
 }
 
 template <typename D1, typename D2, typename R>
